@@ -12,6 +12,15 @@ export CARGO_NET_OFFLINE=true
 RATE="${MIRI_PREEMPTION_RATE:-0.1}"
 # isolation stays on: the program touches no clock, file or environment
 BASEFLAGS="-Zmiri-preemption-rate=$RATE"
+# Wall-clock limits exist only so that a livelocked interpreted program cannot hang the check; a
+# normal execution takes a few seconds, a whole batch about a minute.
+ONE_TIMEOUT="${MIRI_ONE_TIMEOUT:-150}"
+
+# reference results (every call alone on a fresh regex), computed by the same program built natively
+native_solo() {
+  cargo build --release --offline >/dev/null 2>"$HERE/.native.log" || { tail -20 "$HERE/.native.log" >&2; echo "harness error: native build of frmiri failed" >&2; exit 2; }
+  "$HERE/../target-miri/release/frmiri" solo "$1"
+}
 
 mode="${1:-}"; shift || true
 case "$mode" in
@@ -22,7 +31,12 @@ case "$mode" in
     exit 0 ;;
   replay)
     sc="$1"; seed="$2"; RATE="${3:-$RATE}"
-    out=$(MIRIFLAGS="-Zmiri-preemption-rate=$RATE -Zmiri-seed=$seed" cargo +nightly miri run --offline -- "$sc" 2>&1); code=$?
+    exp=$(native_solo "$sc") || exit 2
+    out=$(MIRIFLAGS="-Zmiri-preemption-rate=$RATE -Zmiri-seed=$seed" timeout "$ONE_TIMEOUT" cargo +nightly miri run --offline -- "$sc" "$exp" 2>&1); code=$?
+    if [ $code -eq 124 ]; then
+      echo "error: execution did not terminate within ${ONE_TIMEOUT}s under Miri seed $seed (a normal execution takes seconds): a thread spins or waits forever"
+      exit 1
+    fi
     if [ $code -ne 0 ]; then
       echo "$out" | grep -E "^error|C18-MISMATCH|Data race|deadlock" | head -5
       exit 1
@@ -34,16 +48,30 @@ esac
 
 first="$1"; n="$2"; shift 2
 last=$((first + n))
+BATCH_TIMEOUT="${MIRI_BATCH_TIMEOUT:-$((120 + 20 * n))}"
 mkdir -p "$VERIF/replays"
 t0=$(date +%s.%N)
 viol=0; total=0; summary="["
 for sc in "$@"; do
   log="$HERE/.slice_$sc.log"
-  MIRIFLAGS="$BASEFLAGS -Zmiri-many-seeds=$first..$last" cargo +nightly miri run --offline -- "$sc" >"$log" 2>&1
+  exp=$(native_solo "$sc") || exit 2
+  MIRIFLAGS="$BASEFLAGS -Zmiri-many-seeds=$first..$last" timeout "$BATCH_TIMEOUT" cargo +nightly miri run --offline -- "$sc" "$exp" >"$log" 2>&1
   code=$?
   tried=$(grep -c "^Trying seed:" "$log")
   total=$((total + tried))
   failing=$(grep -oE "FAILING SEED: [0-9]+" "$log" | awk '{print $3}' | sort -n | tr '\n' ' ')
+  if [ $code -eq 124 ] && [ -z "$failing" ]; then
+    # the batch did not finish: some execution never terminates. Find one by running the seeds
+    # one at a time under the per-execution limit.
+    pkill -f "frmiri" 2>/dev/null
+    for seed in $(seq "$first" $((last - 1))); do
+      if ! "$0" replay "$sc" "$seed" "$RATE" >/dev/null 2>&1; then failing="$seed"; echo "error: execution did not terminate (or failed) under Miri seed $seed" >> "$log"; break; fi
+    done
+    if [ -z "$failing" ]; then
+      echo "harness error: Miri batch for scenario $sc exceeded ${BATCH_TIMEOUT}s but every seed terminates alone (machine overloaded?)" >&2
+      exit 2
+    fi
+  fi
   if [ $code -ne 0 ] && [ -z "$failing" ]; then
     if [ "$tried" = 0 ]; then
       tail -20 "$log" >&2
@@ -52,16 +80,14 @@ for sc in "$@"; do
     fi
   fi
   for seed in $failing; do
-    what=$(grep -m1 -E "^error: |C18-MISMATCH" "$log" | cut -c1-300 | sed 's/"/\\"/g')
     rp="$VERIF/replays/C18-miri-s$sc-$seed.json"
-    cat > "$rp" <<EOF
-{"property":"C18","class":"miri","detail":"$what","seed":$seed,"case":{"kind":"miri","scenario":$sc,"seed":$seed,"preemption_rate":"$RATE"}}
-EOF
-    # report only after the exact execution reproduced in a fresh process
-    if "$0" replay "$sc" "$seed" "$RATE" >/dev/null 2>&1; then
+    # report only after the exact execution reproduced in a fresh process; its output is the detail
+    if rout=$("$0" replay "$sc" "$seed" "$RATE" 2>&1); then
       echo "harness error: Miri seed $seed (scenario $sc) failed in the batch but not on replay" >&2
       exit 2
     fi
+    what=$(echo "$rout" | head -1 | cut -c1-300 | tr -d '"\\')
+    printf '{"property":"C18","class":"miri","detail":"%s","seed":%s,"case":{"kind":"miri","scenario":%s,"seed":%s,"preemption_rate":"%s"}}\n' "$what" "$seed" "$sc" "$seed" "$RATE" > "$rp"
     echo "violation class=miri detail=scenario $sc, Miri seed $seed: $what"
     echo "VIOLATION property=C18 replay=$rp"
     viol=$((viol + 1))
